@@ -61,6 +61,7 @@ struct ReuseSpec {
 
 /// call alphabet: 1 = generate(), 2 = generate_from_arbitrary(x), 3 = ...(y), 4 = reset()
 fn do_call(g: &mut pickle_fuzzer::Generator, c: u8, x: &[u8], y: &[u8]) -> (i64, String, usize) {
+    tick(|| format!("reuse call kind {c}"));
     let r = catch_unwind(AssertUnwindSafe(|| match c {
         1 => g.generate().map_err(|e| format!("{e}")),
         2 => g.generate_from_arbitrary(x).map_err(|e| format!("{e}")),
@@ -146,6 +147,7 @@ struct DetSpec {
 }
 
 fn run_plain(job: &Job) -> (i64, String, usize) {
+    tick(|| format!("generation job {}", serde_json::to_string(job).unwrap_or_default()));
     let input = if job.mode == "bytes" { job_input(job) } else { Vec::new() };
     let r = catch_unwind(AssertUnwindSafe(|| {
         let mut g = build_generator(&job.cfg, if job.mode == "seed" { Some(job.seed) } else { None });
@@ -372,7 +374,9 @@ pub fn total(args: &[String]) -> i32 {
                     match child.try_wait().unwrap() {
                         Some(st) => break Some(st),
                         None => {
-                            if t0.elapsed().as_secs() > spec.timeout_s { let _ = child.kill(); let _ = child.wait(); break None; }
+                            // tiny-program batches finish in seconds: a short watchdog keeps a hang from stalling the check
+                            let limit = if b.kind == "all2" || b.kind == "shaped" { spec.timeout_s.min(90) } else { spec.timeout_s };
+                            if t0.elapsed().as_secs() > limit { let _ = child.kill(); let _ = child.wait(); break None; }
                             std::thread::sleep(std::time::Duration::from_millis(20));
                         }
                     }
@@ -415,6 +419,7 @@ pub fn opscan(args: &[String]) -> i32 {
                 let mut i = t;
                 while i < n {
                     let seed = first_seed + i;
+                    tick(|| format!("opscan protocol {p} seed {seed}"));
                     let cfg = Cfg { p, min: 60, max: 300, muts: vec![], mut_unsafe: false, rate: 0.1, rate_raw: false, rate_special: String::new(), unsafe_: false, ext: false, buf: false };
                     let mut g = build_generator(&cfg, Some(seed));
                     verif::start_recording(false);
@@ -464,6 +469,7 @@ pub fn leak(args: &[String]) -> i32 {
         let _ = g.generate();
     }
     for job in &jobs {
+        tick(|| format!("leak job {}", serde_json::to_string(job).unwrap_or_default()));
         let input = if job.mode == "bytes" { job_input(job) } else { Vec::new() };
         // measured run, no recorder
         let before = LIVE.load(Ordering::SeqCst);
@@ -523,6 +529,7 @@ pub fn libgen(args: &[String]) -> i32 {
     std::panic::set_hook(Box::new(|_| {}));
     let mut out = std::io::BufWriter::new(std::fs::File::create(&args[1]).unwrap());
     for j in &jobs {
+        tick(|| format!("library generation job {}", serde_json::to_string(j).unwrap_or_default()));
         let input = if j.mode == "bytes" { job_input(j) } else { Vec::new() };
         let r = catch_unwind(AssertUnwindSafe(|| {
             let mut g = build_generator(&j.cfg, if j.mode == "seed" { Some(j.seed) } else { None });
